@@ -139,6 +139,44 @@ def correspond(ctx, scale=1):
         sigs.add(("xoff", c[0] % 30, a_.startswith("|"), c[3] > c[2]))
         if a_.strip() != b_.strip():
             mm.append({"key": "cross-off", "what": "EratSmall::crossOff(prime %d, segment base %d, %d bytes, L1 %d, state %s): implementation changes %s..., model %s..." % (c[0], c[1], c[3], c[2], s_, a_[:120], b_[:120]), "failing_input": None})
+    # EratBig unit level: the real EratBig (bucket lists in the MemoryPool, wheel-210 table, SievingPrime packing) on all-ones
+    # sieves vs the model's bucket machine (the one C04_eratbig_buckets_refine / C12_eratbig_*_in_bounds are about): changed bytes
+    # per segment, buckets_.size() and the content of every bucket list after the run.  States come from the real
+    # Wheel210::addSievingPrime or are arbitrary (any wheel index, any index within one wheel step beyond the segment).
+    eb = []
+    for _ in range(60 * scale):
+        lg = rng.between(4, 13) if rng.chance(4, 5) else rng.between(14, 16)
+        size = 1 << lg
+        trip = []
+        for _k in range(rng.between(1, 6)):
+            pr_ = oracle.next_prime_ge(rng.choice([31, 37, 100, 1000, 5000, 30000, 10 ** 6, 10 ** 8]) + rng.below(400))
+            if (pr_ // 3) // size > 50000:      # keep buckets_ (one list per future segment) at a few ten thousand entries
+                pr_ = oracle.next_prime_ge(31 + rng.below(5000))
+            sp = pr_ // 30
+            trip.append((pr_, rng.below(size + sp * 10 + 10), rng.below(384)))
+        eb.append((lg, rng.between(1, 6), trip, "arbitrary"))
+    aq = []
+    for _ in range(60 * scale):
+        lg = rng.between(4, 14); size = 1 << lg
+        pr_ = oracle.next_prime_ge(rng.choice([31, 100, 1000, 5000, 30000, 10 ** 6]) + rng.below(400))
+        low = 30 * (max(0, pr_ * pr_ - 30 * rng.below(size)) // 30)
+        aq.append((lg, pr_, low))
+    rc, o, e = ps.run([kp], input="".join("ASP210 %d %d %d\n" % ((1 << 64) - 1, c[1], c[2]) for c in aq), timeout=300)
+    for c, l in zip(aq, o.splitlines()):
+        s_ = l.split()
+        if len(s_) == 2 and int(s_[0]) <= (1 << c[0]) - 1 + (c[1] // 30) * 10 + 10:
+            eb.append((c[0], rng.between(1, 5), [(c[1], int(s_[0]), int(s_[1]))], "addSievingPrime"))
+    fmt = lambda c: "%d %d %s" % (c[0], c[1], " ".join("%d %d %d" % t for t in c[2]))
+    rc, o, e = ps.run([kp], input="".join("EBIG %s\n" % fmt(c) for c in eb), timeout=600)
+    rcm, om, em = ps.run([model], input="".join("LEAF ebig %s\n" % fmt(c) for c in eb), timeout=900)
+    dist["eratbig_units"] = len(eb)
+    if len(o.splitlines()) != len(eb) or len(om.splitlines()) != len(eb):
+        mm.append({"key": "eratbig", "what": "EratBig unit comparison did not run: %d implementation results, %d model results for %d cases (%s)" % (len(o.splitlines()), len(om.splitlines()), len(eb), (e or em)[:200]), "failing_input": None})
+    for c, a_, b_ in zip(eb, o.splitlines(), om.splitlines()):
+        ev += 1
+        sigs.add(("ebig", c[3], len(c[2]) > 1, c[0] > 10))
+        if a_.strip() != b_.strip():
+            mm.append({"key": "eratbig", "what": "EratBig(sieve 2^%d bytes, %d segments, states (prime, multipleIndex, wheelIndex) %s): implementation %s..., model %s..." % (c[0], c[1], c[2], a_[:160], b_[:160]), "failing_input": None})
     # pre-sieve unit level: PreSieve::preSieve on segments at every magnitude (incl. segmentLow <= 163 and the wrap-around of every
     # table) vs the model over the extracted tables
     pc = [(0, 40), (30, 20), (150, 10), (180, 10), (30 * 5957 - 60, 30), (30 * 6683 - 30, 64)]
